@@ -37,7 +37,11 @@ ASSUMPTIONS = [
 def shards(tier):
     n = 150 if tier == "quick" else 2500
     return [{"name": f"{v}-{i}", "machine": True, "variants": vs, "examples": n, "steps": 6 if tier == "quick" else 10}
-            for v, vs in (("redraw", ["redraw"]), ("continue", ["continue"]), ("mixed", ["redraw", "continue"])) for i in (1, 2, 3)]
+            for v, vs in (("redraw", ["redraw"]), ("continue", ["continue"]), ("mixed", ["redraw", "continue"])) for i in (1, 2, 3)] + [
+        # every contest tested by Kaplan-Kolmogorov (one test in nine otherwise): its padding makes the first zero in a later
+        # round the interesting event
+        {"name": f"kk-{i}", "machine": True, "variants": ["redraw", "continue"], "examples": n, "steps": 6 if tier == "quick" else 10,
+         "force_test": "kk"} for i in (1, 2)]
 
 
 class Exec:
@@ -227,12 +231,15 @@ class Exec:
         return self.ok and self.strict >= 2 and self.diff_styles and self.rounds >= 2
 
 
-def _init_strategy():
+def _init_strategy(force_test=None):
     @st.composite
     def init(draw):
         scn = draw(sa.scenario(n_contests=(1, 3), audit_types=("CARD_COMPARISON", "ONEAUDIT"), use_style=True, favour_winner=True,
                                n_cards=(4, 30), p_missing=0.35, mvr_modes=("copy",) * 8 + ("other", "phantom", "drop-contest")))
         scn["pool_workflow"] = True
+        if force_test:
+            for spec in scn["contests"].values():
+                spec["test"] = force_test
         n = len(scn["cards"])
         first = draw(st.sampled_from([1, 1, 0]))   # numbering from 1, or from 0 (the first card's number is then 0)
         nums = [int(v) for v in draw(st.permutations(list(range(first, n + first))))]
@@ -260,7 +267,7 @@ def machine(shard):
             self.out = core.Outcome()
             self.recorded = False
 
-        @initialize(init=_init_strategy())
+        @initialize(init=_init_strategy(shard.get("force_test")))
         def start(self, init):
             self.case = {"init": init, "rounds": []}
             self.ex = self._guard(lambda: Exec(init, self.out))
